@@ -26,6 +26,8 @@ type FiniteParams struct {
 	// Latest: autoReset=latest and no checkpoint at all: every vBucket starts AT its high seqno, which is also
 	// its end - nothing is delivered, every stream ends, the run terminates
 	Latest bool `json:"latest"`
+	// EndFault: the connection of vb1 breaks right behind its last item (transient end exactly at the end bound)
+	EndFault bool `json:"end_fault"`
 }
 
 type ReopenFailParams struct {
@@ -98,6 +100,7 @@ func init() {
 				{Scenario: "reopen_life", Params: mustJSON(LifeParams{Oracle: "position", Segs: 2}), Bound: 0, Shards: 8, Note: "'re-opened from its latest settled position' over chains of transient ends with fail-overs / rollbacks and late acknowledgements of earlier segments"},
 				{Scenario: "c12_finite", Params: mustJSON(FiniteParams{}), Bound: b, Shards: 8},
 				{Scenario: "c12_finite", Params: mustJSON(FiniteParams{Empty: true}), Bound: b - 1, Shards: 8, Note: "one assigned vBucket has no events at all"},
+				{Scenario: "c12_finite", Params: mustJSON(FiniteParams{EndFault: true}), Bound: b - 1, Shards: 4, Note: "finite mode: a transient end exactly at the end bound (the connection breaks right behind the last item) - the re-open brings the clean end, the run terminates"},
 				{Scenario: "c12_finite", Params: mustJSON(FiniteParams{Latest: true}), Bound: b - 1, Shards: 4, Note: "finite mode with autoReset=latest and no checkpoint: start = end = high seqno, the run terminates at once"},
 				{Scenario: "c12_finite", Params: mustJSON(FiniteParams{Latest: true, Empty: true}), Bound: b - 1, Shards: 4},
 				{Scenario: "c12_conc", Params: mustJSON(struct{}{}), Bound: b - 1, Shards: 8, Note: "transient end (node 0) and final end (node 1) concurrently with each other and with events on a third vBucket"},
@@ -289,6 +292,11 @@ func finiteMain(p FiniteParams) {
 	withTransient := vrt.Choose(2, true, "transient-end-on-vb2") == 1
 	if p.Latest {
 		withTransient = false
+	}
+	// the connection of vb1 breaks right behind its last item: instead of the clean end the stream ends with
+	// "socket closed" exactly at the end bound (the re-open, start = end, brings the clean end)
+	if p.EndFault {
+		c.Vb[1].FiniteEndErr = gocbcore.ErrSocketClosed
 	}
 	e := NewEnv(c, o)
 	e.Cons.AutoAck = true
